@@ -56,13 +56,15 @@ def idle_scenario(r, it, tier):
     sim = EpSim(r, inter=it)
     T = r.pick([6000, 8000, 20000]); K = r.pick([1000, 2000, 2500, 5000])
     cfg = dict(DEFAULT_EP, timeout=T, ka=1, kams=K)
-    sim.srv(8, 8, 1, cfg)
+    # every third case: only ONE side sends keepalives; the other one's answers (acks to the bare sync frames) are all either hears
+    asym = r.pick([None, None, "srv_off", "cli_off"])
+    sim.srv(8, 8, 1, dict(cfg, ka=0) if asym == "srv_off" else cfg)
     lat = r.pick([0, 20_000_000, 200_000_000])
     nets = {"c2s": Net(latency=lat), "s2c": Net(latency=lat)}
     sim.nets = nets
     dt = r.pick([16_000_000, 100_000_000, 500_000_000, 1_000_000_000])
     sim.dt = dt
-    sim.cli(0, cfg, nets)
+    sim.cli(0, dict(cfg, ka=0) if asym == "cli_off" else cfg, nets)
     sent = [0]
     both = r.chance(2, 3)        # data in both directions first: both senders have a feedback history when the idle period starts
     def actions(sim):
@@ -77,6 +79,7 @@ def idle_scenario(r, it, tier):
     # RTT seen by an endpoint includes two step intervals of each side: with a slow step cadence the keepalives come too late
     sim.rto_bound_ms = (max(4 * (3 * dt + 2 * lat), K * 10**6) + lat) // 10**6      # worst case: a frame is handled one step after it arrived on either side
     sim.keepalive_T = T; sim.keepalive_K = K; sim.lat_ns = lat
+    sim.ka_senders = {"srv_off": ("c",), "cli_off": ("s",)}.get(asym, ("c", "s"))
     return sim
 
 def early_disconnect_scenario(r, it, tier):
@@ -136,7 +139,7 @@ def streams(rng, tier, ctx):
         # the two open known findings, each by a scenario with a fixed seed (independent of VERIF_SEED): every run shows whether
         # they are still there; they go through the same correspondence and the same oracle as every other case
         from checkflow import SplitMix
-        for (name, fam, sd) in (("kfF9", handshake_delay_scenario, 0xF900 + 2), ("kfF21", idle_scenario, 0xF2100 + 36)):
+        for (name, fam, sd) in (("kfF9", handshake_delay_scenario, 0xF900 + 2), ("kfF21", idle_scenario, 0xF2100 + 21)):
             it.op("=== " + name)
             sim = fam(SplitMix(sd), it, tier)
             cases.append((name, sim.ops)); meta[name] = sim
@@ -155,19 +158,34 @@ def f21_cause(sim, ops, outs, victim_side, te):
     """keepalive_held_back_by_rto iff the keepalive SENDER's own RTT estimate justifies a sync timeout (4 x RTT) that, together with the
     delivery delay, does not fit into the victim's active timeout."""
     import struct
-    getop = "sget" if victim_side == "c" else "cget"          # the victim's peer sends the keepalives
-    t = 0; rtt = None
+    # the side(s) whose keepalive frames the victim depends on: its peer - or, when only one side has keepalives enabled, that side
+    # (its frames are also what makes the other side answer); once one side has timed out the other one follows for the same reason,
+    # so the estimates are read up to the FIRST timeout of the case
+    senders = [x for x in getattr(sim, "ka_senders", ("c", "s")) if x != victim_side] or list(getattr(sim, "ka_senders", ("c", "s")))
+    t_first = te
+    t = 0
     for op, o in zip(ops, outs):
         w = op.split(" ")
         if w[0] == "t":
             t = int(w[1])
-            if t > te: break
-        elif w[0] == getop and "rtt=" in o:
+        elif w[0] in ("sstep", "cstep") and o.startswith("ev") and ":Timeout" in o.split("|")[0]:
+            t_first = min(t_first, t); break
+    t = 0; rtts = {}
+    for op, o in zip(ops, outs):
+        w = op.split(" ")
+        if w[0] == "t":
+            t = int(w[1])
+            if t > t_first: break
+        elif w[0] in ("sget", "cget") and "rtt=" in o:
             v = o.split("rtt=")[1].split(" ")[0]
             if v != "-":
-                rtt = struct.unpack(">d", struct.pack(">Q", int(v)))[0]
+                rtts[w[0][0]] = struct.unpack(">d", struct.pack(">Q", int(v)))[0]
+    rtt = max([rtts[x] for x in senders if x in rtts] or [None], key=lambda v: -1 if v is None else v)
     if rtt is None:
-        return "other"
+        # the keepalive sender never obtained an RTT sample. With a step cadence of 600 ms or more that is the rule, not an accident:
+        # every frame is older than the initial RTO (4 x 150 ms) when its acknowledgement is processed, so it has been forgotten
+        # (counted as lost) by then; the no-feedback timer then doubles the RTO, and the keepalive frames wait for it (F21)
+        return "keepalive_held_back_by_rto" if getattr(sim, "dt", 0) >= 600_000_000 else "other"
     # the documented restriction "keepalive frames are not sent faster than the connection RTO or 2 s, whichever is longer" is in
     # force (rather than the 2 s floor) once 4 x RTT estimate exceeds 2 s, i.e. with RTT estimates of 0.5 s and more (slow step
     # cadences, long links); RTO = max(4 x RTT, 2 x MSS / send rate) then exceeds the active timeout on quiet connections
